@@ -173,7 +173,7 @@ Qed.
 (* ------------------------------------------------------------------ the items of a chain layer *)
 Definition item_ok (bd : bytes) (it : item) : Prop :=
   nospace (it_ty it) = true /\ at_or_under bd (it_tgt it) = true
-  /\ (it_refresh it = false -> it_ty it = overlay /\ it_src it = overlay /\ it_tgt it = bd).
+  /\ (it_imp it = false -> it_ty it = overlay /\ it_src it = overlay /\ it_tgt it = bd).
 
 Lemma map_opt_in {A B} (F : A -> option B) l : forall ys y,
   map_opt F l = Some ys -> In y ys -> exists a, In a l /\ F a = Some y.
@@ -197,14 +197,14 @@ Lemma layer_items_ok c m l : is_abs (c_layers c) = true -> layer_ok c l ->
 Proof.
   intros Habs Hok. pose proof (build_cabs c l Habs Hok) as Hb.
   unfold layer_items, ovl_items, imp_items. apply Forall_app. split.
-  - destruct (l_base l); constructor; [|constructor]. unfold item_ok. cbn [it_ty it_tgt it_src it_refresh].
+  - destruct (l_base l); constructor; [|constructor]. unfold item_ok. cbn [it_ty it_tgt it_src it_imp].
     split; [reflexivity|]. split; [|auto]. unfold at_or_under. now rewrite beq_refl.
   - unfold expand_config_mounts. destruct (map_opt _ (l_mounts l)) as [xs|] eqn:Em; [|constructor].
     apply Forall_forall. intros it Hit. apply in_map_iff in Hit as (x & <- & Hx).
     destruct (map_opt_in _ _ _ _ Em Hx) as (nm & Hnm & Enm).
     destruct (adjust_prefixed (nm_source nm) _) as [src|]; [|discriminate]. injection Enm as <-.
     destruct Hok as [_ Hmo]. rewrite Forall_forall in Hmo. destruct (Hmo _ Hnm) as [(raw & Eraw) Hty].
-    unfold item_ok, xitem. cbn [it_ty it_tgt it_src it_refresh x_mount x_fstype x_source].
+    unfold item_ok, xitem. cbn [it_ty it_tgt it_src it_imp x_mount x_fstype x_source].
     split; [exact Hty|]. split; [|discriminate].
     apply join_under; [exact Hb|]. rewrite Eraw. apply clean_cabs. reflexivity.
 Qed.
